@@ -59,7 +59,58 @@ def classify(tree, text):
     return out, counts
 
 
+SHAPES = os.path.join(VERIF, "corpus", "C02-shapes.json")
+
+
+def shape_of(tree):
+    """the white-space-free skeleton of a tree: node kinds in pre-order with the leaf lengths"""
+    return sha(repr(svtree.skeleton(tree)))
+
+
+def run_shapes(srcs, tag):
+    """{sha(source): shape} for the accepted ones, through the real parser"""
+    cases = []
+    for i, (k, src) in enumerate(srcs):
+        cases.append(Case("q%d" % i).add("want", "tree").add("run", "parse_%s_str" % k, hx(src), hx("t.sv")))
+    impl = run_harness("api", cases, tag, timeout=1800)
+    out = {}
+    for c, (k, src) in zip(cases, srcs):
+        tl = [l for l in (impl.get(c.id) or []) if l.startswith("tree ")]
+        out[sha(k + src)] = shape_of(svtree.parse_tree_line(tl[0])) if tl else "rejected"
+    return out
+
+
+def shapes_check(ctx, grammar_hash):
+    """the spec snippets of tests.rs keep the classification (tree skeleton) recorded when the grammar was validated;
+    all of them when the regenerated grammar differs from the validated one, a sample otherwise"""
+    import snippets
+    ref = json.load(open(SHAPES))
+    pool = snippets.sv_sources()
+    deep = (grammar_hash != ref.get("grammar_hash")) or not ctx.quick()
+    srcs = pool if deep else ctx.rng.sample(pool, 150)
+    got = run_shapes(srcs, "c02shape")
+    bad = None
+    for k, src in srcs:
+        h = sha(k + src)
+        ctx.corr_cases += 1
+        if h in ref["shapes"] and got.get(h) != ref["shapes"][h]:
+            bad = bad or (src, "the tree of a spec snippet (white space aside) differs from the one recorded for the validated grammar"
+                          if got.get(h) != "rejected" else "a spec snippet is no longer accepted")
+    ctx.cov["shape_snapshot"] = {"snippets": len(srcs), "all": deep, "validated_grammar_hash": ref.get("grammar_hash"),
+                                 "grammar_hash_now": grammar_hash}
+    ctx.obl("search-oracle:spec snippets keep the node kinds recorded for the validated grammar (corpus/C02-shapes.json)",
+            "oracle", bad is None, bad[1] if bad else "")
+    if bad:
+        rp = write_replay(ctx, "shape-" + sha(bad[0])[:8], {"property": "C02", "source": bad[0], "why": bad[1]})
+        ctx.viol.append(Violation("Annex A classification: " + bad[1], rp))
+
+
 def check(ctx):
+    try:
+        import svx_grammar
+        ghash = svx_grammar.main().get("hash")
+    except Exception as e:
+        ghash = "translator failed"
     try:
         facts = svx_keywords.main()
         ctx.obl("regenerated:character sets of the identifier lexers and the word-boundary test of keyword()", "regenerated",
@@ -124,6 +175,8 @@ def check(ctx):
     if bad:
         rp = write_replay(ctx, "src-" + sha(bad[0])[:8], {"property": "C02", "source": bad[0], "why": bad[1]})
         ctx.viol.append(Violation("Annex A sentence: " + bad[1], rp))
+    shapes_check(ctx, ghash)
+    libpath_known(ctx)
     findings, _ = load_known()
     if any(f.get("property") == "C02" and f.get("id") == "block-head-assignment-as-declaration" for f in findings):
         w = open(os.path.join(VERIF, "corpus", "C02-block-head.sv")).read()
@@ -131,6 +184,19 @@ def check(ctx):
         lines = run_harness("api", [c], "c02kf").get("kf", [])
         if any(l.startswith("tree ") and "+BlockItemDeclaration" in l for l in lines):
             ctx.known_printed.append("block-head-assignment-as-declaration")
+
+
+def libpath_known(ctx):
+    findings, _ = load_known()
+    if not any(f.get("property") == "C02" and f.get("id") == "lib-path-block-comment" for f in findings):
+        return
+    w = open(os.path.join(VERIF, "corpus", "C02-libpath.lib")).read()
+    c = Case("kf2").add("want", "tree").add("run", "parse_lib_str", hx(w), hx("t.map")).add("run", "raw", "lib", hx(w))
+    lines = run_harness("api", [c], "c02kf2").get("kf2", [])
+    if any(l.startswith("err Preprocess") for l in lines):
+        ctx.known_printed.append("lib-path-block-comment")
+    else:
+        ctx.notes.append("known finding lib-path-block-comment no longer reproduces: %s" % lines[:3])
 
 
 def replay(ctx, path):
